@@ -342,7 +342,25 @@ func genC01Case(t *rapid.T) (*ScalarCase, bool) {
 	if rapid.IntRange(0, 3).Draw(t, "noMsg") == 0 {
 		msg = ""
 	}
-	c.Rules = []string{sizeRuleText(key, lo, hi) + msg}
+	rt := sizeRuleText(key, lo, hi)
+	if rapid.IntRange(0, 9).Draw(t, "zeroPad") == 0 {
+		// decimal numerals with leading zeros (and an explicit plus sign) denote the same bound
+		pad := func(x int64) string {
+			if x < 0 {
+				if x == math.MinInt64 {
+					return strconv.FormatInt(x, 10)
+				}
+				return "-0" + strconv.FormatInt(-x, 10)
+			}
+			return rapid.SampledFrom([]string{"0", "00", "+", "+0"}).Draw(t, "padWith") + strconv.FormatInt(x, 10)
+		}
+		if key == "to" || key == "oto" {
+			rt = key + "=" + pad(lo) + "~" + pad(hi)
+		} else {
+			rt = key + "=" + pad(lo)
+		}
+	}
+	c.Rules = []string{rt + msg}
 	c.Carrier = rapid.SampledFrom(Carriers).Draw(t, "carrier")
 	for i := 0; i < 8 && !c.carrierOK(); i++ {
 		c.Carrier = Carriers[(indexOf(Carriers, c.Carrier)+1)%len(Carriers)]
